@@ -38,41 +38,46 @@ func runValidate(payload []*Sx) *Sx {
 	}
 	runs := L(A("runs"))
 	for _, e := range payload[3].List[1:] {
-		em := storeFromSx(e.List[1])
-		// a conforming store holds the action entities with the transitive closure of their declared groups as parents
-		for uid := range rs.Actions {
-			if _, ok := em[uid]; ok {
-				continue
-			}
-			seen := map[types.EntityUID]bool{}
-			var walk func(u types.EntityUID)
-			walk = func(u types.EntityUID) {
-				if a, ok := rs.Actions[u]; ok {
-					for p := range a.Entity.Parents.All() {
-						if !seen[p] {
-							seen[p] = true
-							walk(p)
+		// every environment twice: the store as given (nothing requires it to hold the action entities), and with the action
+		// entities added, their parents being the transitive closure of their declared groups (what conformance asks of them)
+		for _, withActions := range []bool{false, true} {
+			em := storeFromSx(e.List[1])
+			if withActions {
+				for uid := range rs.Actions {
+					if _, ok := em[uid]; ok {
+						continue
+					}
+					seen := map[types.EntityUID]bool{}
+					var walk func(u types.EntityUID)
+					walk = func(u types.EntityUID) {
+						if a, ok := rs.Actions[u]; ok {
+							for p := range a.Entity.Parents.All() {
+								if !seen[p] {
+									seen[p] = true
+									walk(p)
+								}
+							}
 						}
 					}
+					walk(uid)
+					var ps []types.EntityUID
+					for p := range seen {
+						ps = append(ps, p)
+					}
+					em[uid] = types.Entity{UID: uid, Parents: types.NewEntityUIDSet(ps...)}
 				}
 			}
-			walk(uid)
-			var ps []types.EntityUID
-			for p := range seen {
-				ps = append(ps, p)
+			rq := reqFromSx(e.List[2])
+			req, ok := rq.concrete()
+			conform := ok && v.Entities(em) == nil && v.Request(cedar.Request(req)) == nil
+			if !conform {
+				runs.List = append(runs.List, L(A("0")))
+				continue
 			}
-			em[uid] = types.Entity{UID: uid, Parents: types.NewEntityUIDSet(ps...)}
+			env := xeval.Env{Entities: em, Principal: rq.P, Action: rq.A, Resource: rq.R, Context: rq.C}
+			val, eerr := xeval.Eval(xeval.PolicyToNode(pol).AsIsNode(), env)
+			runs.List = append(runs.List, L(A("1"), outcomeSx(val, eerr)))
 		}
-		rq := reqFromSx(e.List[2])
-		req, ok := rq.concrete()
-		conform := ok && v.Entities(em) == nil && v.Request(cedar.Request(req)) == nil
-		if !conform {
-			runs.List = append(runs.List, L(A("0")))
-			continue
-		}
-		env := xeval.Env{Entities: em, Principal: rq.P, Action: rq.A, Resource: rq.R, Context: rq.C}
-		val, eerr := xeval.Eval(xeval.PolicyToNode(pol).AsIsNode(), env)
-		runs.List = append(runs.List, L(A("1"), outcomeSx(val, eerr)))
 	}
 	return L(L(A("verdict"), A(verdict)), runs)
 }
